@@ -338,9 +338,8 @@ def softmax_backward(grad:np.ndarray, softmax_a:np.ndarray, axis:int) -> np.ndar
     - https://eli.thegreenplace.net/2016/the-softmax-function-and-its-derivative/
     - https://aimatters.wordpress.com/2019/06/17/the-softmax-function-derivative/
     """
-    jacobians = np.stack([np.diag(y) - np.outer(y, y) for y in softmax_a])
-    out_grad = np.expand_dims(grad, axis=axis)
-    a_grad = (out_grad @ jacobians).sum(axis=axis)
+    # vector-Jacobian product of softmax along `axis` (any rank): s * (g - sum(g * s))
+    a_grad = softmax_a * (grad - (grad * softmax_a).sum(axis=axis, keepdims=True))
     return a_grad
 
 
@@ -353,11 +352,9 @@ def log_softmax_forward(a:np.ndarray, axis:int) -> np.ndarray:
     return log_softmax
 
 def log_softmax_backward(grad:np.ndarray, log_softmax_a:np.ndarray, axis:int) -> np.ndarray:
+    # vector-Jacobian product of log_softmax along `axis` (any rank): g - softmax * sum(g)
     softmax = np.exp(log_softmax_a)
-    jacobians = np.stack([np.diag(y) - np.outer(y, y) for y in softmax])
-    dlog_dsoftmax = (1/(softmax + epsilon)) * grad
-    dlog_dsoftmax = np.expand_dims(dlog_dsoftmax, axis=axis)
-    a_grad = (dlog_dsoftmax @ jacobians).sum(axis=axis)
+    a_grad = grad - softmax * grad.sum(axis=axis, keepdims=True)
     return a_grad
 
 # **************************
